@@ -131,7 +131,7 @@ PROPS["C17"] = dict(
                "divisors and naively interpolated value polynomials). No deductive contract: the evaluator, periodic table and "
                "boundary groups are generic over a user Air with iterator-heavy bodies, and the statement is an identity over "
                "field values.",
-    level_note="Bounded as stated in coverage.native_bounded_standins: one AIR per stand-in. The verifier's side (its evaluation from an opened "
+    level_note="The stand-in lagrange_native (single-segment, auxiliary and Lagrange-kernel traces with LDE blowups above the constraint-evaluation blowup; honest proofs must be produced and accepted) also serves C17: it is where the Lagrange kernel constraints are exercised. Bounded as stated in coverage.native_bounded_standins: one AIR per stand-in. The verifier's side (its evaluation from an opened "
                "frame agrees with the committed polynomial) is observed through the real prover and verifier on a second AIR with periodic "
                "columns of four cycle lengths and shared boundary-constraint groups (verifier_side_native). "
                "Auxiliary segments and Lagrange kernel constraints are exercised only by C04's pipelines.",
